@@ -152,6 +152,12 @@ impl DiskRowset {
                 let mut pre_block_first_key = 0;
                 for index in column_index.indexes() {
                     let mut first_key: &[u8] = &index.first_key;
+                    // Whether first keys are recorded is an option of the open that wrote the
+                    // RowSet, not of this one: without them there is nothing to seek by, the
+                    // RowSet is scanned from its start (the range still filters the rows).
+                    if first_key.is_empty() {
+                        return ColumnSeekPosition::RowId(0);
+                    }
                     let first_val: i32 = PrimitiveFixedWidthEncode::decode(&mut first_key);
 
                     // rows equal to `begin_val` may end the previous block
